@@ -246,7 +246,20 @@ def check_schema(c, it, tr, decisions, src, expected_events, label, method="visi
         kk = (e[0], None if e[2] is None else PE.dump(tr_ann(e[2])))
         if kk not in decisions:
             decisions[kk] = bool(c.choose(2, "instrument-unasked"))
-    exp = [ev_sig(*e) for e in expected_events if decisions.get((e[0], None if e[2] is None else PE.dump(tr_ann(e[2]))), decisions.get((e[0], None), False))]
+        if e[1] is not None and e[1][0] == "attr":
+            # an attribute store `o.attr = v` is ALSO the binding of the variable the selector calls `o.attr` (K.moo > self.x):
+            # it is instrumented when the capture set names either the object or the dotted path
+            dk = (f"{e[0]}.{e[1][1]}", kk[1])
+            if dk not in decisions:
+                decisions[dk] = bool(c.choose(2, "instrument-dotted-path"))
+
+    def _wanted(e):
+        a = None if e[2] is None else PE.dump(tr_ann(e[2]))
+        if decisions.get((e[0], a), decisions.get((e[0], None), False)):
+            return True
+        return bool(e[1] is not None and e[1][0] == "attr" and decisions.get((f"{e[0]}.{e[1][1]}", a), False))
+
+    exp = [ev_sig(*e) for e in expected_events if _wanted(e)]
     c.prove(f"{label}/events==instrumented-bindings-in-order", got == exp, note=f"got={got} expected={exp}", only=["C02", "C06", "C11"])
     # C16: the marker only flows into the 4th argument of an interact call
     leaks = marker_leaks(outs)
@@ -368,6 +381,9 @@ def u_visit_annassign(c):
     name = evs[0][0]
     ann_key = PE.dump(tr_ann(evs[0][2]))
     inst = dec.get((name, ann_key), False)
+    if evs[0][1] is not None and evs[0][1][0] == "attr":
+        # an attribute store is also the binding of the dotted path the selector may name (o.y)
+        inst = inst or dec.get((f"{name}.{evs[0][1][1]}", ann_key), False)
     got = [e.sig() for e in PE.events(outs)]
     e = evs[0]
     exp = [(e[0], ev_sig(*e)[1], ann_key, PE.dump(parse_expr(e[3])), e[4])] if inst else []
@@ -753,6 +769,12 @@ SCOPE_PROGRAMS = [
     ("closure", "def f():\n    return fv + 1", {"fv": "closure"}),
     ("closure-read-only-in-nested-class-body", "def f():\n    class A:\n        inc = fv\n        glob = GLOB2\n    return A", {"fv": "closure", "A": "body"}),
     ("closure-read-only-in-nested-def", "def f():\n    def g():\n        return fv\n    return g", {"fv": "closure", "g": "body"}),
+    ("reads-its-own-name", "def f(k):\n    return k * f(k - 1)", {"f": "external", "k": "argument"}),
+    ("closure-reads-its-own-name", "def fv(n):\n    return fv(n - 1)", {"fv": "closure", "n": "argument"}),
+    ("parameter-reassigned", "def f(a):\n    a = a + 1\n    return a", {"a": "argument"}),
+    ("global-declared-and-assigned", "def f():\n    global GG\n    GG = 1\n    return GG", {"GG": "external"}),
+    ("closure-nonlocal-rebound", "def f():\n    nonlocal fv\n    fv += 1\n    return fv", {"fv": "closure"}),
+    ("lambda-parameter-shadows-local", "def f():\n    k = 1\n    g = lambda k: k\n    return g(k)", {"k": "body", "g": "body"}),
 ]
 
 
@@ -855,6 +877,26 @@ class K:
         w = v * 2
         return w
 
+class Texts:
+    def indented(self, v):
+        s = """first
+        continuation line of an indented method"""
+        w = v
+        return s, w
+
+    def column_zero(self, v):
+        s = """
+text at column zero
+"""
+        w = v
+        return s, w
+
+async def coroutine(x):
+    y = x
+    return y
+
+lam = lambda x: x
+
 EVALS = []
 
 def fresh(tag):
@@ -926,14 +968,24 @@ def u_transform_orchestration(c):
         spec = importlib.util.spec_from_file_location(os.path.basename(p)[:-3], p)
         mod = importlib.util.module_from_spec(spec)
         spec.loader.exec_module(mod)
-        which = c.choose(9, "function")
+        which = c.choose(14, "function")
+        if which >= 11:
+            # objects that cannot be instrumented are refused with the documented TypeError (C10), not an assertion / OSError
+            ns = {}
+            exec("def made_by_exec(x):\n    y = x\n    return y\n", ns)
+            bad = [mod.coroutine, mod.lam, ns["made_by_exec"]][which - 11]
+            st, r = run(it, it.get_global(TR, "transform"), [bad, SymObj("proceed", Val.ref(z3.IntVal(c.new_id())))], dict(to_instrument=True))
+            c.prove(f"not-instrumentable/{['async-def', 'lambda', 'no-source'][which - 11]}/refused-with-TypeError", st == "raise" and isinstance(r, TypeError),
+                    note=f"{st} {r!r}", only=["C10"])
+            return
         inc, get = mod.siblings()
-        fn = [mod.plain, mod.outer(5), mod.gen, mod.annotated, mod.K.method, mod.outer2(3), mod.with_defaults, mod.factory(), get][which]
+        fn = [mod.plain, mod.outer(5), mod.gen, mod.annotated, mod.K.method, mod.outer2(3), mod.with_defaults, mod.factory(), get,
+              mod.Texts.indented, mod.Texts.column_zero][which]
         label = ["plain", "closure", "generator", "annotated", "method", "closure-with-defaults", "default-expressions", "defaults-from-enclosing-scope",
-                 "closure-rebound-by-sibling"][which]
+                 "closure-rebound-by-sibling", "method-with-multi-line-string", "method-with-text-at-column-zero"][which]
         samples = {"plain": [(1,), (1, 5)], "closure": [(4,)], "generator": [], "annotated": [(3,), (3, 4, 5)], "method": [(None, 2)],
                    "closure-with-defaults": [(1,), (1, 9), (1, 9, 8)], "default-expressions": [(), (7,)], "defaults-from-enclosing-scope": [(), (3,)],
-                   "closure-rebound-by-sibling": [()]}[label]
+                   "closure-rebound-by-sibling": [()], "method-with-multi-line-string": [(None, 1)], "method-with-text-at-column-zero": [(None, 1)]}[label]
         evals_before = list(mod.EVALS)
         ksamples = {"closure-with-defaults": [{}, {"bias": 1}, {"tag": "q", "bias": 0}], "annotated": [{}, {"flag": True, "extra": 1}]}.get(label, [{}])
 
@@ -956,7 +1008,8 @@ def u_transform_orchestration(c):
         everything = bool(c.choose(2, "all-variables"))
         Element = it.get_global("ptera.selector", "Element")
         first_local = {"plain": "c", "closure": "y", "generator": "i", "annotated": "z", "method": "w", "closure-with-defaults": "z",
-                       "default-expressions": "r", "defaults-from-enclosing-scope": "q", "closure-rebound-by-sibling": "v"}[label]
+                       "default-expressions": "r", "defaults-from-enclosing-scope": "q", "closure-rebound-by-sibling": "v",
+                       "method-with-multi-line-string": "w", "method-with-text-at-column-zero": "w"}[label]
         to_instrument = True if everything else [it.call(Element, [], dict(name=first_local, capture=first_local))]
         glb = fn.__globals__
         before_name = glb.get(fn.__name__, "<<missing>>")
@@ -1018,7 +1071,13 @@ def u_transform_orchestration(c):
             import inspect as _inspect
             import textwrap as _tw
 
-            src = _tw.dedent(_inspect.getsource(fn))
+            src = _inspect.getsource(fn)
+            if src[:1] in (" ", "\t"):
+                try:
+                    src = _tw.dedent(src)
+                    compile(src, "<s>", "exec")
+                except SyntaxError:
+                    src = "if 1:\n" + _inspect.getsource(fn)  # text at column zero inside an indented definition
             is_closure = bool(fn.__closure__)
             binds = "".join(f"    {nm} = 0\n" for nm in fn.__code__.co_freevars)
             wrapped = ("def __o():\n" + binds + "\n".join("    " + ln for ln in src.splitlines())) if is_closure else src
